@@ -94,6 +94,17 @@ STRUCTS = {
         "chains": {"bc": [_d("A", "R_BC", "D"), _d("R_BC", "B", "C")], "cd": [_d("A", "R_CD", "B"), _d("R_CD", "C", "D")]},
         "identical": [["C", "D"]],
     },
+    # four-body (0; 0,0,0,0) with TWO groups of identical spin-0 particles (B~C and D~E): the symmetrisation must combine the groups
+    "sid2g": {
+        "top": ("A", {"J": 0, "P": -1, "mass": 3.1}),
+        "finals": [("B", {"J": 0, "P": -1, "mass": 0.1396}), ("C", {"J": 0, "P": -1, "mass": 0.1396}), ("D", {"J": 0, "P": -1, "mass": 0.4937}),
+                   ("E", {"J": 0, "P": -1, "mass": 0.4937})],
+        "res": {"R_BD": {"J": 1, "P": -1, "m0": 0.892, "g0": 0.05}, "R_CE": {"J": 1, "P": -1, "m0": 0.892, "g0": 0.05},
+                "R_BC": {"J": 1, "P": -1, "m0": 0.775, "g0": 0.15}, "R_DE": {"J": 1, "P": -1, "m0": 1.02, "g0": 0.02}},
+        "chains": {"br": [_d("A", "R_BD", "R_CE"), _d("R_BD", "B", "D"), _d("R_CE", "C", "E")],
+                   "br2": [_d("A", "R_BC", "R_DE"), _d("R_BC", "B", "C"), _d("R_DE", "D", "E")]},
+        "identical": [["B", "C"], ["D", "E"]],
+    },
     # four-body (1/2; 1/2,0,0,1): cascades of two topologies, different top-level partners, and a branching chain
     "f4": {
         "top": ("A", {"J": 0.5, "P": 1, "mass": 5.62}),
